@@ -150,6 +150,12 @@ def _task(X):
         ys0 = [e for e in p.events if e.kind == 'yield']
         if len(ys0) > len(hist):
             _record_sharing(R, p.events, ys0, out)
+    out['shared_mut'] = set()
+    for p in list(paths) + list(paths0):
+        for e in getattr(p, 'full_events', p.events):
+            if e.kind in ('mutate', 'item-store', 'item-del') and getattr(e.data.get('obj'), 'shared', None) \
+                    and not any(f.name == '<classbody>' for f in e.stack):
+                out['shared_mut'].add((e.data['obj'].shared, e.loc, e.fn, norm(e.node)[:60]))
     for p in paths:
         evs = p.events
         yields = [e for e in evs if e.kind == 'yield']
